@@ -153,6 +153,7 @@ package dht
 
 //@ func (dht.tokenServer).CreateToken
 //@   arith int
+//@   option records issuedtoken
 //@   requires addr: addr != nil && iplen(addr)
 //@   requires interval: me.interval > 0
 //@   ensures token-of-now: result == tok(old(bstr(addr.IP())), godiv(tn(lastnow()), math(me.interval)), old(bstr(me.secret)))
@@ -188,12 +189,20 @@ package dht
 //@   trusted
 //@   option records propagate
 
+// the server's wrappers forward to its token server and touch nothing (in particular not the secret: an issued token
+// stays valid for the whole window)
 //@ func (*dht.Server).validToken
-//@   trusted
+//@   arith int
 //@   option records tokenok
+//@   requires nonnil: s != nil && addr != nil && iplen(addr) && s.tokenServer.interval > 0 && s.tokenServer.maxIntervalDelta == 2
+//@   callsite (*dht.tokenServer).ValidToken forwards: $me == &s.tokenServer && $token == token && $addr == addr
+//@   ensures one-check: count("call:(*dht.tokenServer).ValidToken") == 1
 //@ func (*dht.Server).createToken
-//@   trusted
+//@   arith int
 //@   option records token
+//@   requires nonnil: s != nil && addr != nil && iplen(addr) && s.tokenServer.interval > 0
+//@   callsite (dht.tokenServer).CreateToken forwards: $me == s.tokenServer && $addr == addr
+//@   ensures the-token-the-token-server-issued: result == recorded("issuedtoken")
 
 //@ func (*dht.Server).reply
 //@   trusted
@@ -207,6 +216,7 @@ package dht
 
 //@ func (*dht.Server).handleQuery
 //@   requires nonnil: s != nil && source != nil && iplen(source) && s.store != nil && s.store.s != nil
+//@   requires token-window-configured: s.tokenServer.interval > 0 && s.tokenServer.maxIntervalDelta == 2
 //@   requires unlocked-wrapper: !held(s.store.mu)
 //@   requires table-root-is-own-id: s.table.rootID.bits == s.id.bits
 //@   requires globals: krpcErrMissingArguments.Code == 203 && krpc.ErrorMethodUnknown.Code == 204
@@ -232,7 +242,10 @@ package dht
 //@   callsite (*dht.Server).sendError a-rejected-put-carries-the-error-of-the-store: m.Q == "put" && count("call:(*dht/bep44.Wrapper).Put") == 1 ==> recorded("puterr") != nil && (typeis(recorded("puterr"), krpc.Error) ==> $e == unbox(recorded("puterr"), krpc.Error))
 //@   callsite (*dht.Server).reply a-put-is-confirmed-only-if-the-store-took-it: m.Q == "put" ==> count("call:(*dht/bep44.Wrapper).Put") == 1 && recorded("puterr") == nil
 //@   callsite (*dht/bep44.Wrapper).Get the-requested-target: m.Q == "get" && m.A != nil && $t == m.A.Target
-//@   callsite (*dht.Server).reply get-sends-the-value-only-if-newer-than-the-seq-named: m.Q == "get" && $r.V != nil ==> recorded("gotitem") != nil && (m.A.Seq == nil || recorded("gotitem").Seq > *m.A.Seq) && $r.V == recorded("marshalled") && $r.K == recorded("gotitem").K && $r.Sig == recorded("gotitem").Sig
+//@   callsite (*dht.Server).reply get-sends-the-value-only-if-newer-than-the-seq-named: m.Q == "get" && $r.V != nil ==> recorded("gotitem") != nil && (m.A.Seq == nil || recorded("gotitem").Seq > *m.A.Seq)
+//@   callsite (*dht.Server).reply get-sends-the-stored-value: m.Q == "get" && $r.V != nil ==> $r.V == recorded("marshalled")
+//@   callsite (*dht.Server).reply get-sends-the-stored-key: m.Q == "get" && $r.V != nil ==> $r.K == recorded("gotitem").K
+//@   callsite (*dht.Server).reply get-sends-the-stored-signature: m.Q == "get" && $r.V != nil ==> $r.Sig == recorded("gotitem").Sig
 //@   callsite (*dht.Server).reply get-reports-the-stored-seq: m.Q == "get" && count("call:(*dht/bep44.Wrapper).Get") == 1 && recorded("gotitem") != nil ==> $r.Seq != nil && *$r.Seq == recorded("gotitem").Seq
 //@   callsite github.com/anacrolix/torrent/bencode.MustMarshal the-stored-value: recorded("gotitem") != nil && $v == recorded("gotitem").V
 //@   callsite (*dht.Server).updateNode only-the-sender-itself-unless-read-only: $addr == source && $tryAdd == !m.ReadOnly
@@ -299,7 +312,7 @@ package dht
 //@   option noalloc
 //@   ensures result == self.String()
 
-//@ spec def handler(s *Server) bool = s != nil && s.store != nil && s.store.s != nil && !held(s.store.mu) && s.table.rootID.bits == s.id.bits && krpcErrMissingArguments.Code == 203 && krpc.ErrorMethodUnknown.Code == 204 && bep44.ErrValueFieldTooBig.Code == 205 && bep44.ErrInvalidSignature.Code == 206 && bep44.ErrSaltFieldTooBig.Code == 207 && bep44.ErrCasHashMismatched.Code == 301 && bep44.ErrSequenceNumberLessThanCurrent.Code == 302 && bep44.Empty32ByteArray == 0 && bep44.ErrItemNotFound != nil
+//@ spec def handler(s *Server) bool = s != nil && s.tokenServer.interval > 0 && s.tokenServer.maxIntervalDelta == 2 && s.store != nil && s.store.s != nil && !held(s.store.mu) && s.table.rootID.bits == s.id.bits && krpcErrMissingArguments.Code == 203 && krpc.ErrorMethodUnknown.Code == 204 && bep44.ErrValueFieldTooBig.Code == 205 && bep44.ErrInvalidSignature.Code == 206 && bep44.ErrSaltFieldTooBig.Code == 207 && bep44.ErrCasHashMismatched.Code == 301 && bep44.ErrSequenceNumberLessThanCurrent.Code == 302 && bep44.Empty32ByteArray == 0 && bep44.ErrItemNotFound != nil
 
 //@ func (*dht.transaction).handleResponse
 //@   trusted
@@ -537,6 +550,7 @@ package dht
 //@   ensures root-id-refused: n.Id.bits == tbl.rootID.bits ==> result != nil && count("call:(*dht.bucket).AddNode") == 0
 //@   ensures added-once: result == nil ==> count("call:(*dht.bucket).AddNode") == 1
 //@   ensures refused-untouched: result != nil ==> count("call:(*dht.bucket).AddNode") == 0
+//@   ensures refused-only-for-the-root-id-a-duplicate-or-a-full-bucket: result != nil ==> n.Id.bits == tbl.rootID.bits || old(len(tbl.buckets[bidx(tbl, n.Id)].nodes)) >= tbl.k || (exists m *node :: old(m in tbl.buckets[bidx(tbl, n.Id)].nodes) && m.Id == n.Id && m.Addr.String() == n.Addr.String())
 
 // nodeErr: the reasons an entry is unacceptable -- the node's own ID, the zero ID, an insecure ID when enforced, a failed ping
 //@ func (dht/int160.T).IsZero
@@ -740,6 +754,7 @@ package dht
 //@   modifies *
 //@   callsite go:(*dht.Announce).announceClosest$1$1 one-announce-for-that-member: $elem == elem && $a == a
 //@   ensures one-announce-per-member: count("go:(*dht.Announce).announceClosest$1$1") == 1
+//@   ensures one-wait-group-unit-per-announce: count("call:(*sync.WaitGroup).Add") == 1
 //@ func (*dht.Announce).logger
 //@   trusted
 //@ func (*dht.Announce).announceClosest$1$1
@@ -748,6 +763,7 @@ package dht
 //@   modifies *
 //@   callsite (*dht.Announce).announcePeer the-member-it-was-spawned-for: $peer == elem && $a == a
 //@   ensures one-announce: count("call:(*dht.Announce).announcePeer") == 1
+//@   ensures signals-the-wait-group-exactly-once: count("call:(*sync.WaitGroup).Done") == 1
 
 //@ func (*dht.Announce).announcePeer$1@cancel
 //@   trusted
@@ -818,6 +834,8 @@ package dht
 //@   ensures buckets-of-eight-rooted-at-the-own-id: err == nil ==> s != nil && s.table.k == 8 && s.table.rootID.bits == s.id.bits
 //@   ensures bep5-token-window: err == nil ==> s.tokenServer.maxIntervalDelta == 2 && s.tokenServer.interval == 300000000000 && len(s.tokenServer.secret) == 20
 //@   ensures a-store-a-limiter-a-socket: err == nil ==> s.store != nil && s.store.s != nil && !held(s.store.mu) && s.config.SendLimiter != nil && s.socket != nil && !held(s.mu)
+//@   ensures the-configured-send-limiter-is-the-one-used: err == nil && c != nil && old(c.SendLimiter) != nil ==> s.config.SendLimiter == old(c.SendLimiter)
+//@   ensures the-shared-default-limiter-otherwise: err == nil && c != nil && old(c.SendLimiter) == nil ==> s.config.SendLimiter == DefaultSendLimiter
 //@   ensures one-read-loop: err == nil ==> count("go:(*dht.Server).serveUntilClosed") == 1
 //@   ensures nothing-started-on-error: err != nil ==> count("go:(*dht.Server).serveUntilClosed") == 0
 
